@@ -349,6 +349,12 @@ class Encoder:
             xn = x.none if x.none is not None else z3.BoolVal(False)
             t, f = m, z_and(z_not(xn), z_not(m))
             return (f, t) if e.negated else (t, f)
+        if isinstance(e, P.Bin) and e.op in ('IS', 'IS NOT'):
+            a, b = self.expr(e.left, scope), self.expr(e.right, scope)
+            an = a.none if a.none is not None else z3.BoolVal(False)
+            bn = b.none if b.none is not None else z3.BoolVal(False)
+            same = z_or(z_and(an, bn), z_and(z_not(an), z_not(bn), self._compare('=', a, b)))
+            return (z_not(same), same) if e.op == 'IS NOT' else (same, z_not(same))
         if isinstance(e, P.Bin):
             a, b = self.expr(e.left, scope), self.expr(e.right, scope)
             nn = z_and(z_not(a.none) if a.none is not None else True,
@@ -501,12 +507,14 @@ class Encoder:
                 al = None
                 for a in alts:
                     ok = False
-                    if isinstance(a, P.Bin) and a.op == '=':
+                    if isinstance(a, P.Bin) and a.op in ('=', 'IS'):
                         for x, y in ((a.left, a.right), (a.right, a.left)):
                             if isinstance(x, P.Col) and alias_of(x) and not inner(y):
                                 if al is None or al == alias_of(x):
                                     al = alias_of(x)
-                                    parts.append((x.name, self.expr(y, scope)))
+                                    # a null-safe comparison is a different key: `col IS NULL` matches rows that
+                                    # `col = NULL` never does (the canonical row of the look-up differs)
+                                    parts.append((x.name + (' IS' if a.op == 'IS' else ''), self.expr(y, scope)))
                                     ok = True
                                     break
                     if not ok:
@@ -548,14 +556,15 @@ class Encoder:
             else:
                 flat_names.append(k)
                 flat_vals.append(v)
-        sorts = [SORTS[self.db.colkind(table, k)] for k in flat_names]
+        col = lambda k: k[:-3] if k.endswith(' IS') else k      # noqa: E731  (null-safe key: see scalar())
+        sorts = [SORTS[self.db.colkind(table, col(k))] for k in flat_names]
         fname = f'first[{table}.{"+".join(names)}]{self.db.tag}'
         row_f = z3.Function(fname, *sorts, z3.IntSort())
         found_f = z3.Function(fname + '.found', *sorts, z3.BoolSort())
         args = []
         vals = []
         for k, v, s in zip(flat_names, flat_vals, sorts):
-            kind = self.db.colkind(table, k)
+            kind = self.db.colkind(table, col(k))
             v = self._as_sql_value(v)
             if v.kind != kind:
                 if v.none is not None and z3.is_true(z3.simplify(v.none)):
@@ -576,7 +585,7 @@ class Encoder:
             alts = []
             for kk in group:
                 val = vals[i]
-                cv = self.db.value(table, kk, row)
+                cv = self.db.value(table, col(kk), row)
                 e = cv.z == val.z
                 if cv.none is not None:
                     e = z3.And(z3.Not(cv.none), e)
